@@ -147,7 +147,7 @@ def split_replies(got):
     for l in got:
         if l == "END":
             blocks.append(cur); cur = []
-        elif l.startswith("OK ") or (l.startswith("ERR") and not cur):
+        elif l.startswith("OK "):
             blocks.append([l])
         else:
             cur.append(l)
